@@ -440,7 +440,7 @@ func init() {
 	})
 	vc.Register(&vc.Check{
 		ID: "C19", Level: "exploration",
-		Rule: "complete upload sessions (0x1210, 0x1211, chunks, 0x1212, EOF) with the DEFAULT file handler on a virtual file system rooted at a sandbox directory, for announced names = ALL strings of length 1..6 over {a . /} (1092) and all strings of length 1..5 over {a . / \\} that contain a backslash, EVERY byte value 0..255 in five separator positions (..Xe, ..X..Xe, X../e, aX../../e, X), each short name also with a leading '/', with an embedded NUL, '../' repeated up to the 255-byte wire limit, 50-byte chunk-header names, names that resolve to existing files outside (../file.log), names that climb out into a sibling whose name begins with the terminal's own directory name (../<phone>1/x, ../<phone>.bak/z, ../<phone>_note), x 5 phones (one all zeros, one with leading zeros only). " +
+		Rule: "complete upload sessions (0x1210, 0x1211, chunks, 0x1212, EOF) with the DEFAULT file handler on a virtual file system rooted at a sandbox directory, for announced names = ALL strings of length 1..6 over {a . /} (1092) and all strings of length 1..5 over {a . / \\} that contain a backslash, EVERY byte value 0..255 in five separator positions (..Xe, ..X..Xe, X../e, aX../../e, X), each short name also with a leading '/', with an embedded NUL, '../' repeated up to the 255-byte wire limit, 50-byte chunk-header names, names that resolve to existing files outside (../file.log), names that climb out into a sibling whose name begins with the terminal's own directory name (../<phone>1/x, ../<phone>.bak/z, ../<phone>_note), x 5 phones (one all zeros, one with leading zeros only); plus announcements of 2 and 3 files whose names collide once sanitised (every ordered pair and triple of a 10-name menu reaching the same last element through different parents). " +
 			"Every create/write target of the handler is logged by the vos shim (and carried out only inside the sandbox); it must lie under <root>/<phone>/ (the handler's own file.log excepted). Non-trivial = name contains '..' or '/'",
 		Assumptions: []string{"the os calls of attachment/file_event.go are routed to harness/vos by import rewriting (vgen); paths are resolved lexically (no symlinks in the sandbox)"},
 		Run:         c19Run,
@@ -834,9 +834,11 @@ func toUp(cs [][2]int) []upChunk {
 // ---- C19 ----
 
 type nameCase struct {
-	Name  string `json:"name_hex"`
-	Phone string `json:"phone"`
-	Seg   string `json:"segmentation"`
+	Name string `json:"name_hex"`
+	// More: further names announced in the same 0x1210 (names that collide after sanitising)
+	More  []string `json:"more_names_hex,omitempty"`
+	Phone string   `json:"phone"`
+	Seg   string   `json:"segmentation"`
 }
 
 var nameWrites int // writefile operations of the last nameEval (evidence against vacuity)
@@ -847,6 +849,10 @@ func nameEval(c nameCase) (sig, diag string) {
 	uc := upCase{Dialect: 0, AlarmID: "a19", Files: []upFile{{Name: name, Data: upData(4, 1)}}, Chunks: splitChunks(0, 4, 4), Finish: true, Seg: c.Seg, Default: true, Phone: c.Phone}
 	if len(name) > 50 {
 		uc.Chunks = nil // the chunk header cannot carry the name: announce and finish only
+	}
+	for i, m := range c.More {
+		uc.Files = append(uc.Files, upFile{Name: string(unhx(m)), Data: upData(3, byte(i+2))})
+		uc.Chunks = append(uc.Chunks, splitChunks(i+1, 3, 3)...)
 	}
 	r := upRun(uc)
 	if r.panicked != "" {
@@ -943,6 +949,40 @@ func c19Run(ctx *vc.Ctx, rep *vc.Report) {
 		if ctx.Expired() {
 			rep.Truncated = true
 			return
+		}
+	}
+	// several files in one announcement whose names collide once sanitised (same last element reached through different
+	// parents): every ordered pair and triple of a menu
+	coll := []string{"x.jpg", "../x.jpg", "a/../../x.jpg", "a/x.jpg", "/x.jpg", "./x.jpg", "..//x.jpg", "a/../x.jpg", "..\\x.jpg", "b/../../../x.jpg"}
+	for _, phone := range []string{"13800138000", "0"} {
+		for i, a := range coll {
+			for j, b := range coll {
+				if i == j {
+					continue
+				}
+				for k := -1; k < len(coll); k++ {
+					if k == i || k == j {
+						continue
+					}
+					idx++
+					if !ctx.Mine(idx) {
+						continue
+					}
+					c := nameCase{Name: hx2([]byte(a)), More: []string{hx2([]byte(b))}, Phone: phone, Seg: "unit"}
+					if k >= 0 {
+						c.More = append(c.More, hx2([]byte(coll[k])))
+					}
+					sig, diag := nameEval(c)
+					rep.Evaluations++
+					rep.Nontrivial++
+					if sig != "" {
+						rep.Outcome("fail:" + sig)
+						rep.Add(sig, diag, "name", c)
+					} else {
+						rep.Outcome("ok-colliding-names")
+					}
+				}
+			}
 		}
 	}
 	rep.Count("distinct_names", int64(len(names)))
